@@ -230,8 +230,7 @@ def make_table(case):
 def cases(tier, seed):
     for ptr in G.PTR_BYTES:
         yield {"label": f"type-table ptr={ptr}", "pointer": ptr, "make": "make_table"}
-    kmax = 3 if tier == "quick" else 4
-    for k in range(1, kmax + 1):
+    def symbolic(k):
         for aligns in itertools.product(ALIGNS, repeat=k):
             for align in (False, True):
                 yield {"label": f"symbolic-sizes struct a={aligns} align={align}", "aligns": list(aligns), "align": align, "union": False,
@@ -239,6 +238,8 @@ def cases(tier, seed):
                 if k <= 3:
                     yield {"label": f"symbolic-sizes union a={aligns} align={align}", "aligns": list(aligns), "align": align, "union": True,
                            "make": "make_symbolic", "width": 64}
+    for k in (1, 2, 3):
+        yield from symbolic(k)
     seen = set()
     for c in families.struct_cases(tier, seed, both_readers=(tier != "quick")):
         key = (c["label"], c["cfg"]["align"], c["cfg"]["compiled"], c["cfg"].get("pointer"))
@@ -246,3 +247,6 @@ def cases(tier, seed):
             continue
         seen.add(key)
         yield c
+    if tier != "quick":
+        # four symbolic members: ~1 s of solver time per case, so they go last (the budget may cut the tail of this family)
+        yield from symbolic(4)
